@@ -108,3 +108,50 @@ def read_conf(eng, filename):
 
 def kinetic(vel, mass):
     return 0.5 * float(np.sum(mass[:, None] * vel * vel))
+
+
+def make_multiframe(name, eng, conf, path_noext, nframes=3):
+    """A multi-frame trajectory in the engine's own trajectory format, written with the harness' independent writers
+    (ASE: through ase.io).  Frame j: the example configuration shifted by 0.01*j with its own small velocities.
+    Returns (file, [(pos, vel, box)])."""
+    from harness import writers
+    x0, v0, b0, names = read_conf(eng, conf)
+    n = x0.shape[0]
+    frames = []
+    for j in range(nframes):
+        pos = x0 + 0.01 * j
+        vel = np.array([[0.001 * (j + 1) * (a + 1) * (1 if c == 0 else -0.5) for c in range(3)] for a in range(n)])
+        frames.append((pos, vel, None if b0 is None else np.array(b0, dtype=float)))
+    if name in ("cp2k", "turtlemd"):
+        fn = path_noext + ".xyz"
+        with open(fn, "w") as fh:
+            for pos, vel, box in frames:
+                fh.write(f"{n}\n# " + ("Box: " + " ".join(f"{b:9.4f}" for b in np.ravel(box)[:3]) if box is not None else "frame") + "\n")
+                for a in range(n):
+                    nm = names[a] if names else "X"
+                    fh.write(f"{nm:5s}" + "".join(f" {c:15.9f}" for c in list(pos[a]) + list(vel[a])) + "\n")
+    elif name == "lammps":
+        fn = path_noext + ".lammpstrj"
+        with open(fn, "wb") as fh:
+            for j, (pos, vel, box) in enumerate(frames):
+                fh.write(writers.lammpstrj_frame(j, list(range(1, n + 1)), pos.tolist(), vel.tolist(), [(0.0, float(b)) for b in np.ravel(box)[:3]], fmt="{:.10f}"))
+    elif name == "gromacs":
+        fn = path_noext + ".trr"
+        with open(fn, "wb") as fh:
+            for j, (pos, vel, box) in enumerate(frames):
+                b = np.ravel(box)[:3]
+                fh.write(writers.trr_frame(j, 0.002 * j, [[b[0], 0, 0], [0, b[1], 0], [0, 0, b[2]]], pos.tolist(), vel.tolist(), double=True)[0])
+    elif name == "ase":
+        import ase.io
+        base = ase.io.read(conf)
+        imgs = []
+        for pos, vel, _box in frames:
+            a = base.copy()
+            a.set_positions(pos)
+            a.set_velocities(vel)
+            imgs.append(a)
+        fn = path_noext + ".traj"
+        ase.io.write(fn, imgs)
+    else:
+        raise ValueError(name)
+    return fn, frames
